@@ -8,6 +8,8 @@ def handle (fam : String) (rest : List String) : Option String :=
   match fam with
   | "es" => Driver.EarlyStopping.handle rest
   | "gbloop" => Driver.Boost.handle rest
+  | "gbres" => Driver.BoostFit.handleGbres rest
+  | "mlres" => Driver.BoostFit.handleMlres rest
   | _ => none
 
 def main : IO Unit := DriverMain.run handle
